@@ -36,3 +36,76 @@ Theorem ok_source_is_complete : forall m bytes fuel d ps pinit st,
   fr_sok (eval_struct m bytes fuel d ps pinit st) = true ->
   fr_scomplete (eval_struct m bytes fuel d ps pinit st) = true.
 Proof. exact structure_ok_complete. Qed.
+
+(* ---------- locality (read-set) and the copy post-condition (proved in View/Local.v) ---------- *)
+Require Import EmbossV.View.Stable EmbossV.View.Local.
+
+(* A view only depends on the bytes inside its window: two memories that agree on [o, o+l) give the
+   same observations (every module, structure, parameters, nesting depth). *)
+Theorem view_reads_only_its_window : forall m mem1 mem2 o l,
+  (forall i, o <= i < o + l -> nth_byte mem1 i = nth_byte mem2 i) ->
+  forall fuel d ps pinit g,
+    observe g (eval_struct m mem1 fuel d ps pinit (SB (Some (o, l)))) =
+    observe g (eval_struct m mem2 fuel d ps pinit (SB (Some (o, l)))).
+Proof. exact eval_local_observe. Qed.
+Print Assumptions view_reads_only_its_window.
+
+(* ... and is translation invariant: a view at offset o of an allocation observes what a view at
+   offset 0 of the extracted window observes. *)
+Theorem view_translation_invariant : forall m mem o l,
+  0 <= o ->
+  forall fuel d ps pinit g,
+    observe g (eval_struct m mem fuel d ps pinit (SB (Some (o, l)))) =
+    observe g (eval_struct m (firstn (Z.to_nat l) (skipn (Z.to_nat o) mem)) fuel d ps pinit (SB (Some (0, l)))).
+Proof. exact eval_shift_observe. Qed.
+
+(* Equals of two Ok views only depends on the bytes inside the two windows; together with
+   view_reads_only_its_window: bytes no field covers cannot influence it. *)
+Theorem equals_depends_only_on_windows : forall m d mem mem' fuel g o1 l1 o2 l2 ps1 pinit1 ps2 pinit2,
+  (forall i, o1 <= i < o1 + l1 -> nth_byte mem i = nth_byte mem' i) ->
+  (forall i, o2 <= i < o2 + l2 -> nth_byte mem i = nth_byte mem' i) ->
+  let v1 := eval_struct m mem fuel d ps1 pinit1 (SB (Some (o1, l1))) in
+  let v2 := eval_struct m mem fuel d ps2 pinit2 (SB (Some (o2, l2))) in
+  let v1' := eval_struct m mem' fuel d ps1 pinit1 (SB (Some (o1, l1))) in
+  let v2' := eval_struct m mem' fuel d ps2 pinit2 (SB (Some (o2, l2))) in
+  fr_sok v1 = true -> fr_sok v2 = true ->
+  fr_sok v1' = true /\ fr_sok v2' = true /\
+  equals_struct m g d (fr_sub v1) (fr_sub v2) = equals_struct m g d (fr_sub v1') (fr_sub v2').
+Proof. exact equals_local. Qed.
+Print Assumptions equals_depends_only_on_windows.
+
+(* After a successful TryToCopyFrom the destination is Ok, has the source's size and Equals the OLD
+   source — also for overlapping windows (memmove semantics); the source re-read from the new memory
+   Equals it too when its window was not overwritten.  Hypotheses forced by the proof: the class
+   wf_stable (window growth), equal parameters, and that the source is Ok on its own first n bytes. *)
+Theorem copy_then_equals : forall m, wf_stable m = true ->
+  forall d ps pinit fuel mem o1 l1 o2 l2 n,
+    In d m ->
+    0 <= o1 -> o1 + l1 <= Z.of_nat (length mem) ->
+    0 <= o2 -> o2 + l2 <= Z.of_nat (length mem) ->
+    let src := eval_struct m mem fuel d ps pinit (SB (Some (o2, l2))) in
+    fr_sok src = true -> fr_ssize src = Some n -> 0 <= n -> n <= l1 ->
+    fr_sok (eval_struct m mem fuel d ps pinit (SB (Some (o2, n)))) = true ->
+    exists mem',
+      view_try_copy mem (Some (o1, l1)) src = Some mem' /\ length mem' = length mem /\
+      let dst' := eval_struct m mem' fuel d ps pinit (SB (Some (o1, l1))) in
+      fr_sok dst' = true /\ fr_ssize dst' = Some n /\
+      equals_struct m fuel d (fr_sub dst') (fr_sub src) = true /\
+      (forall g, observe g (eval_struct m mem' fuel d ps pinit (SB (Some (o1, n)))) =
+                 observe g (eval_struct m mem fuel d ps pinit (SB (Some (o2, n))))) /\
+      ((o1 = o2 \/ o1 + n <= o2 \/ o2 + l2 <= o1) ->
+       let src' := eval_struct m mem' fuel d ps pinit (SB (Some (o2, l2))) in
+       fr_sok src' = true /\ equals_struct m fuel d (fr_sub dst') (fr_sub src') = true).
+Proof. exact Local.copy_then_equals. Qed.
+Print Assumptions copy_then_equals.
+
+(* non-vacuity: two Ok views whose padding bytes differ are Equal; changing a covered byte breaks it *)
+Example equals_ignores_padding_instance :
+  let v1 := eval_struct m_ex pad_mem 8 d_ex [] true (SB (Some (0, 7))) in
+  let v2 := eval_struct m_ex pad_mem 8 d_ex [] true (SB (Some (7, 7))) in
+  let w2 := eval_struct m_ex ([0; 9; 9; 5; 1; 2; 165] ++ [0; 7; 7; 6; 1; 2; 165]) 8 d_ex [] true (SB (Some (7, 7))) in
+  fr_sok v1 = true /\ fr_sok v2 = true /\ fr_sok w2 = true /\
+  nth_byte pad_mem 1 <> nth_byte pad_mem 8 /\
+  equals_struct m_ex 8 d_ex (fr_sub v1) (fr_sub v2) = true /\
+  equals_struct m_ex 8 d_ex (fr_sub v1) (fr_sub w2) = false.
+Proof. exact equals_ignores_padding. Qed.
